@@ -211,6 +211,7 @@ func BuildUniform(nwf int, body []string) (*Kernel, error) {
 	a := New()
 	prologue(a, nwf)
 	m := &emitter{last: loadRegs[0]}
+	nloop, loopN, inLoop := 0, 0, false
 	for _, op := range body {
 		if strings.HasPrefix(op, "xge:") {
 			k, err := strconv.Atoi(op[4:])
@@ -221,6 +222,32 @@ func BuildUniform(nwf int, body []string) (*Kernel, error) {
 			a.SCbranchVCCZ("END")
 			continue
 		}
+		if strings.HasPrefix(op, "loop:") {
+			// "loop:N" ... "endloop": the ops in between run N times (s10 counts; a conditional forward branch
+			// leaves the loop, an unconditional backward branch repeats it).  Not nested.
+			k, err := strconv.Atoi(op[5:])
+			if err != nil || k < 1 || k > 64 || inLoop {
+				return nil, fmt.Errorf("bad op %q", op)
+			}
+			nloop++
+			inLoop = true
+			a.SMovB32(10, K(0))
+			a.Label(fmt.Sprintf("LOOP%d", nloop))
+			loopN = k
+			continue
+		}
+		if op == "endloop" {
+			if !inLoop {
+				return nil, fmt.Errorf("endloop without loop")
+			}
+			inLoop = false
+			a.SAddU32(10, S(10), K(1))
+			a.SCmpEqU32(S(10), K(loopN))
+			a.SCbranchSCC1(fmt.Sprintf("DONE%d", nloop))
+			a.SBranch(fmt.Sprintf("LOOP%d", nloop))
+			a.Label(fmt.Sprintf("DONE%d", nloop))
+			continue
+		}
 		if op == "end" {
 			return nil, fmt.Errorf("\"end\" is implicit in uniform kernels")
 		}
@@ -228,8 +255,42 @@ func BuildUniform(nwf int, body []string) (*Kernel, error) {
 			return nil, err
 		}
 	}
+	if inLoop {
+		return nil, fmt.Errorf("loop without endloop")
+	}
 	a.Label("END")
 	a.SEndpgm()
+	return finish(a, nwf)
+}
+
+// BuildRaw assembles a kernel without prologue: every wavefront runs the same straight-line body of
+// scheduler-internal instructions only (nop, bar, w:V:S, end), so that co-resident work-groups stay in lock step.
+func BuildRaw(nwf int, body []string) (*Kernel, error) {
+	if nwf < 1 || nwf > 16 {
+		return nil, fmt.Errorf("1..16 wavefronts per group, got %d", nwf)
+	}
+	a := New()
+	ended := false
+	for _, op := range body {
+		switch op {
+		case "nop":
+			a.SNop()
+		case "bar":
+			a.SBarrier()
+		case "end":
+			a.SEndpgm()
+			ended = true
+		default:
+			v, s, ok := ParseWait(op)
+			if !ok {
+				return nil, fmt.Errorf("raw kernels take nop, bar, w:V:S, end; got %q", op)
+			}
+			a.SWaitcnt(v, s)
+		}
+	}
+	if !ended {
+		a.SEndpgm()
+	}
 	return finish(a, nwf)
 }
 
